@@ -64,6 +64,12 @@ def classify_call(fn, term):
         else:
             raise ExtractionError("ctx store of unknown value %s" % args[1][:100])
         return {"k": "ctx_store", "w": whose(a0, fn), "v": v}
+    if re.search(r"verif_hook::point$", c) or (c == "point" and args and "verif_hook::" in args[0]):
+        # only present when the MIR is dumped with --cfg steel_verif (conformance run, DESIGN 3.5)
+        m = re.search(r"const (\d+)_u32", args[0]) or re.search(r"const (?:\w+::)*(\w+)", args[0])
+        if not m:
+            raise ExtractionError("hook point with a non-constant id in %s" % fn.name)
+        return {"k": "hook", "id": m.group(1)}
     if c == "park" or c.endswith("thread::park"):
         return {"k": "park"}
     if re.search(r"Thread::unpark$", c):
@@ -326,6 +332,8 @@ class Builder:
                     n = self.new(k, {"w": res_w(cl["w"]), "v": cl.get("v")}, src=src)
                 elif k in ("park", "reglock", "iter_init", "heaplock"):
                     n = self.new(k, src=src)
+                elif k == "hook":
+                    n = self.new("hook", {"id": cl["id"]}, src=src)
                 elif k == "foreach":
                     clo = self.find_closure(cl["closure"])
                     n = self.new("iter_init", src=src)
@@ -498,6 +506,13 @@ class Program:
             start = len(b.nodes)
             e = b.inline(f, cont, recv=("fixed", target))
             return e
+        if op == "any":
+            # conformance runs only: the solver picks what this slot of the program is
+            ch = b.new("choice")
+            ch.succ["c0"] = self._op("user", cont, is_host)
+            ch.succ["c1"] = self._op("prim", cont, is_host)
+            ch.succ["c2"] = cont
+            return ch
         if op == "user":
             u = b.new("user")
             u.succ["ok"] = cont
@@ -579,7 +594,10 @@ def bv(v, w):
 
 
 class Smt:
-    def __init__(self, progs, n, K):
+    def __init__(self, progs, n, K, trace=None, silent=()):
+        """trace: list of (thread, hook id) the run has to emit, in this order (conformance);
+        hook ids in `silent` are not observable."""
+        self.trace, self.silent = trace, set(silent)
         self.progs, self.n, self.K = progs, n, K
         self.T = len(progs)
         self.lines = []
@@ -603,6 +621,8 @@ class Smt:
                 L.append("(declare-const tok%d_%d Bool)" % (i, k))
             L.append("(declare-const reglock_%d (_ BitVec %d))" % (k, LKW))
             L.append("(declare-const heaplock_%d (_ BitVec %d))" % (k, LKW))
+            if self.trace is not None:
+                L.append("(declare-const pos_%d (_ BitVec 8))" % k)
             if k < self.K:
                 L.append("(declare-const sched_%d (_ BitVec %d))" % (k, LKW))
                 L.append("(declare-const br_%d (_ BitVec %d))" % (k, BRW))
@@ -614,6 +634,8 @@ class Smt:
         for i in range(self.n):
             vs += ["paused%d" % i, "state%d" % i, "ctx%d" % i, "tok%d" % i]
         vs += ["reglock", "heaplock"]
+        if self.trace is not None:
+            vs.append("pos")
         return vs
 
     def init(self):
@@ -631,6 +653,8 @@ class Smt:
             # unparks every registered thread, parked or not)
         L.append("(assert (= reglock_0 %s))" % bv(FREE, LKW))
         L.append("(assert (= heaplock_0 %s))" % bv(FREE, LKW))
+        if self.trace is not None:
+            L.append("(assert (= pos_0 %s))" % bv(0, 8))
 
     def targets(self, w, t):
         if w == "self":
@@ -652,6 +676,15 @@ class Smt:
             return out
         if k in ("scan", "user", "block", "marking", "thunk", "mark"):
             out.append(("true", {}, go("ok"), k))
+        elif k == "hook":
+            hid = n.a["id"]
+            if self.trace is None or hid in self.silent:
+                out.append(("true", {}, go("ok"), "hook:" + hid))
+            else:
+                idx = [i for i, (tt, h) in enumerate(self.trace) if tt == t and h == hid]
+                if idx:
+                    g = "(or %s)" % " ".join("(= pos_K %s)" % bv(i, 8) for i in idx)
+                    out.append((g, {"pos": "(bvadd pos_K %s)" % bv(1, 8)}, go("ok"), "hook:" + hid))
         elif k == "poll_begin":
             # saturating count of polls begun after the host's request completed
             out.append(("true", {"polls%d" % t: "(ite (and HOSTDONE (bvult polls%d_K %s)) (bvadd polls%d_K %s) polls%d_K)" % (t, bv(15, PLW), t, bv(1, PLW), t)}, go("ok"), k))
